@@ -131,6 +131,10 @@ type Engine struct {
 	registry     map[string]value
 	netDials     int
 	lastPanicStack []string
+	crashed      bool
+	crashLabel   string
+	crashPoints  int
+	hookCheck    bool
 }
 
 var E *Engine
@@ -174,6 +178,10 @@ func (e *Engine) resetPath() {
 	e.clockLast = nil
 	e.registry = map[string]value{}
 	e.netDials = 0
+	e.crashed = false
+	e.crashLabel = ""
+	e.crashPoints = 0
+	e.hookCheck = false
 }
 
 // endPath terminates the current path with the given outcome.
